@@ -179,8 +179,14 @@ def _run_field(case, ctx):
                         break
                     v = np.asarray(r.value).reshape(-1, 3)
                     sc = max(float(np.max(np.abs(F[X]))) if np.all(np.isfinite(F[X])) else 0.0, 1e-300)
+                    # the two routes order the vertices differently; next to an edge line the triangle formula is
+                    # ill-conditioned and the library's own accuracy band (C01 envelope) bounds what they may differ by
+                    from vf.props import c01 as _c01  # pylint: disable=import-outside-toplevel
+
+                    bnd = _c01.accuracy_band(cls, body, loc)
+                    row_allow = (1e-10 + np.where(bnd > 1e-5, 3.0 * bnd, 0.0))[:, None] * sc
                     with np.errstate(invalid="ignore"):
-                        if np.any(np.abs(v - F[X]) > 1e-10 * sc):
+                        if np.any(np.abs(v - F[X]) > row_allow):
                             worst = int(np.nanargmax(np.max(np.abs(v - F[X]), axis=1)))
                             out.append(Violation({"sub": "in_out_truthful_differs", "cls": cls, "in_out": label,
                                                   "coplanar_face_planes": _coplanar(body, loc[worst])},
